@@ -26,6 +26,7 @@ fn guarded<F: FnOnce() -> (bool, String) + panic::UnwindSafe>(f: F) -> (bool, bo
 mod u2f;
 mod hid;
 mod status;
+mod rpid;
 
 fn main() {
     let args: Vec<String> = std::env::args().collect();
@@ -37,6 +38,7 @@ fn main() {
         "u2f-wf" => guarded(move || u2f::wellformed_parses(&hex(&arg))),
         "status-byte" => guarded(move || status::status_byte(&hex(&arg))),
         "flags-byte" => guarded(move || status::flags_byte(&hex(&arg))),
+        "rpid-web" => guarded(move || rpid::web(&arg)),
         "hid-packets" => guarded(move || hid::packets_no_panic(&arg)),
         "hid-roundtrip" => guarded(move || hid::roundtrip(&arg)),
         _ => (false, false, format!("unknown entry {entry}")),
